@@ -3,6 +3,7 @@ CONSTANTS
   Locked = FALSE
   Bodies <- BodiesOne
   Modes <- OnlyAnsi
+  ValueChoices <- DefaultValues
   Seconds <- NoSecond
   TickMs <- Ticks1
   MaxTicks = 2
